@@ -191,7 +191,7 @@ def _chmod_files(entries, path, fs):
         entry_path = fs.join(path, *entry.key)
         try:
             mode = os.stat(entry_path).st_mode | stat.S_IEXEC
-        except FileNotFoundError:
+        except (FileNotFoundError, NotADirectoryError):
             # NOTE: the file could not be created, which has already been
             # reported through onerror.
             continue
